@@ -1,5 +1,5 @@
 Require Extraction.
 Require Import ExtrOcamlBasic.
-From SCMO Require Import Lib.Val Model.C18.
-Definition run := run_C18.
+From SCMO Require Import Lib.Val Model.C18 Model.C18x.
+Definition run := run_C18x.
 Extraction "c18_model.ml" run.
